@@ -71,7 +71,7 @@ FAIL_EXPR = {
     'attr': ('({K}).nope', 'AttributeError'),
     'builtin_int': ("int('bad{K}')", 'ValueError'),
     'builtin_len': ('len({K})', 'TypeError'),
-    'unpack': ('(lambda a, b: a)(*[{K}])', 'TypeError'),
+    'builtin_divmod': ('divmod({K})', 'TypeError'),
 }
 # failing statements: kind -> (template, exception type name)
 FAIL_STMT = {
@@ -356,8 +356,8 @@ class Gen(object):
             E = 'f%d(p)' % (ci + 1)
         if r.random() < 0.25 and depth < 4:
             hdr = r.choice(HOT_HEADER)
-            if hdr.startswith('for') and not last:
-                hdr = 'if {E}:'
+            if (hdr.startswith('for') or hdr.startswith('with')) and not last:
+                hdr = 'if {E}:'       # (calls in a with item are not routed through converted_call: C04/C13 territory)
             S(hdr.replace('{E}', E), hot=True)
             self.filler(ind + 1, func, depth + 1, 1)
         else:
